@@ -524,6 +524,9 @@ func c20neighbours(c *fw.Ctx) {
 					mbits.LeadingZeroes(w)
 					w[n-1-i%n] = 1
 					mbits.TrailingZeroes(w)
+					if i%8 == 7 {
+						runtime.Gosched() // with a single P the other goroutine must get its turn without waiting for preemption
+					}
 				}
 			}()
 			go func() {
